@@ -21,6 +21,11 @@ type resetSpec struct {
 	SSNStart    uint16 // first cycle: pre-set sequence cursors (wrap coverage)
 	MIDStart    uint32
 	BackSizes   []int // messages B writes back before closing its direction
+	CloseGap    time.Duration // pause between the Close calls of successive streams (separate RECONFIG packets)
+	MsgGap      time.Duration // pause between the writes of one stream
+	// EagerReopen: the next cycle starts as soon as the identifier is free on both sides (both
+	// readers saw end-of-stream), without waiting for the responses to the reset requests.
+	EagerReopen bool
 	CheckBuffered bool // C15: per-stream buffered amount must be zero after the reset
 }
 
@@ -124,6 +129,9 @@ func resetCycle(m *Sim, spec *resetSpec, cycle int) bool {
 	want := [2]map[uint16][]string{{}, {}}
 	for _, sid := range spec.SIDs {
 		for i, sz := range spec.Sizes {
+			if i > 0 && spec.MsgGap > 0 {
+				m.Sleep(spec.MsgGap)
+			}
 			data := payload(sid, cycle*16+i, sz)
 			if _, err := streams[sid].a.WriteSCTP(data, PayloadTypeWebRTCBinary); err != nil {
 				m.Failf("write", "cycle %d: write on A stream %d: %v", cycle, sid, err)
@@ -132,7 +140,10 @@ func resetCycle(m *Sim, spec *resetSpec, cycle int) bool {
 			want[1][sid] = append(want[1][sid], string(data))
 		}
 	}
-	for _, sid := range spec.SIDs {
+	for i, sid := range spec.SIDs {
+		if i > 0 && spec.CloseGap > 0 {
+			m.Sleep(spec.CloseGap)
+		}
 		if err := streams[sid].a.Close(); err != nil {
 			m.Failf("close", "cycle %d: Close on A stream %d: %v", cycle, sid, err)
 		}
@@ -186,6 +197,9 @@ func resetCycle(m *Sim, spec *resetSpec, cycle int) bool {
 			if _, in := m.As[1].streams[sid]; in {
 				return false
 			}
+		}
+		if spec.EagerReopen && cycle+1 < spec.Cycles {
+			return true
 		}
 		return drained(m.As[0]) && drained(m.As[1]) && len(m.As[0].reconfigs) == 0 && len(m.As[1].reconfigs) == 0
 	})
@@ -282,6 +296,26 @@ func propC14(j *Job) {
 						j.Explore(fmt.Sprintf("R/%s/m%d/U%v/late%v/two%v", mode.Name, len(sizes), unordered, late, two), resetScenario(spec), Budget{K: k}, nil)
 						if j.capped() {
 							return
+						}
+						if !two && !late && (si == 2 || (j.Thorough() && si == 1)) {
+							// the identifier is re-opened while answers to the reset requests may
+							// still be missing; the new incarnation's writes are spread over time
+							sp := *spec
+							sp.EagerReopen, sp.MsgGap, sp.Cycles = true, 1200*time.Millisecond, 3
+							j.Explore(fmt.Sprintf("R/%s/m%d/U%v/eager", mode.Name, len(sizes), unordered), resetScenario(&sp), Budget{K: k}, nil)
+							if j.capped() {
+								return
+							}
+						}
+						if two && (j.Thorough() || si == 1) {
+							// the two reset requests travel in separate packets: one can be lost
+							// while the other is answered
+							sp := *spec
+							sp.CloseGap = 5 * time.Millisecond
+							j.Explore(fmt.Sprintf("R/%s/m%d/U%v/late%v/two-gap", mode.Name, len(sizes), unordered, late), resetScenario(&sp), Budget{K: k}, nil)
+							if j.capped() {
+								return
+							}
 						}
 					}
 				}
